@@ -104,9 +104,9 @@ func init() {
 		ID: "C17",
 		Jobs: func(tier string, meta map[string]int) []Job {
 			js := []Job{job("fit", "H17a"), job("fit", "H17b"), job("fit", "H17t")}
-			rt := 12
+			rt, edgeW := 12, 256
 			if tier == "thorough" {
-				rt = 14
+				rt, edgeW = 14, 16384
 			}
 			for lat := 0; lat <= 1; lat++ {
 				for neg := 0; neg <= 1; neg++ {
@@ -123,19 +123,45 @@ func init() {
 							js = append(js, j)
 						}
 					}
+					// the ends of the legal range, W values wide
+					j := job("fit", "H17e", "k", -2, "neg", neg, "lat", lat, "w", edgeW)
+					j.Timeout = 300000
+					js = append(js, j)
 				}
 			}
 			return js
 		},
 		MustReach: []string{"C17.lat.invalid-iff", "C17.lng.invalid-iff", "C17.degrees.exact", "C17.lat.roundtrip", "C17.lng.roundtrip", "C17.time.roundtrip"},
 		Bounds: map[string]interface{}{
-			"quick":    "integer clauses, NaN-iff-invalid, Degrees exactness and the time bijection: none (all 2^32 values; Degrees decided per magnitude class 2^k <= |s| < 2^(k+1), all 31 classes x sign x type); degrees->semicircles round trip within one semicircle: |s| < 2^13 only",
-			"thorough": "as quick; round trip: |s| < 2^15",
+			"quick":    "integer clauses, NaN-iff-invalid, Degrees exactness and the time bijection: none (all 2^32 values; Degrees decided per magnitude class 2^k <= |s| < 2^(k+1), all 31 classes x sign x type); degrees->semicircles round trip within one semicircle: |s| < 2^13 and the 256 legal values next to each end of the range (+-2^30 for latitude, +-2^31 for longitude) only",
+			"thorough": "as quick; round trip: |s| < 2^15 and 16384 values next to each end",
 		},
-		Outside: []string{"round trip for |s| >= the stated magnitude: two FP multiplications by an inexact constant do not finish (z3 5.1.0 > 600 s at 2^20)",
+		Outside: []string{"round trip for |s| between the stated magnitude and the end windows: two FP multiplications by an inexact constant do not finish (z3 5.1.0 > 600 s at 2^20)",
 			"the printed form (strconv.FormatFloat) is not encodable"},
 		Assumptions: append([]string{"time.Time methods are executed from the standard library's SSA; interval simplifier rewrites (x*1e9)/1e9 -> x when no overflow is possible"}, commonAssumptions...),
 	})
+}
+
+// hostJobs is one instance of harness h per message number (in the first
+// file type hosting it; every hosting file type when all) plus file_id,
+// file_creator and timestamp_correlation.
+func hostJobs(meta map[string]int, h string, all bool) []Job {
+	var js []Job
+	seen := map[int]bool{}
+	for ti := 0; ti < 17; ti++ {
+		for i := 0; i < meta[fmt.Sprintf("nhost_%d", ti)]; i++ {
+			g := meta[fmt.Sprintf("host_%d_%d", ti, i)]
+			if seen[g] && !all {
+				continue
+			}
+			seen[g] = true
+			js = append(js, job("fit", h, "ti", ti, "gmn", g, "big", (ti+g)%2))
+		}
+	}
+	for _, g := range []int{0, 49, 162} {
+		js = append(js, job("fit", h, "ti", 3, "gmn", g, "big", g%2))
+	}
+	return js
 }
 
 func msgJobs(meta map[string]int, pkg, h string, extra ...interface{}) []Job {
@@ -276,7 +302,7 @@ func init() {
 		},
 		MustReach: []string{"C03.filetype.accepted-iff-known", "C03.accessor.matching", "C03.accessor.others-error", "C03.add.appended-once", "C03.add.prefix-kept", "C03.add.single-slot-replaced", "C03.add.others-untouched", "C03.add.stored-equals-message", "C03.add.file-id", "C03.add.file-untouched"},
 		Bounds: map[string]interface{}{
-			"quick":    "file types: all 256 values; add step: 17 file types x every profile message number (from the tree), container pre-state with L in {0,1,2} messages in every slice (same L for all slices) and all single slots nil or all set, message = all-invalid value with every integer field arbitrary",
+			"quick":    "file types: all 256 values; add step: 17 file types x every profile message number (from the tree), container pre-state with L in {0,1,2} messages in every slice (same L for all slices; for L = 0 both nil, as NewFile leaves it, and empty non-nil) and all single slots nil or all set, message = all-invalid value with every integer field arbitrary",
 			"thorough": "same",
 		},
 		Outside: []string{"interleavings of arbitrary length follow from the add step by induction (append at the end of an arbitrary prefix keeps stream order) — paper argument",
@@ -704,7 +730,8 @@ func init() {
 
 func init() {
 	reg(&CheckDef{
-		ID: "C08",
+		ID:   "C08",
+		Meta: "fit.Hmeta",
 		Jobs: func(tier string, meta map[string]int) []Job {
 			var js []Job
 			n := 2
@@ -718,13 +745,14 @@ func init() {
 				js = append(js, job("fit", "H08d", "n", n, "kinds", k))
 			}
 			js = append(js, job("fit", "H08b"), job("fit", "H08c"))
+			js = append(js, hostJobs(meta, "H08e", tier == "thorough")...)
 			return js
 		},
-		MustReach:      []string{"C08.frame.no-state-survives-a-call", "C08.frame.accumulators-are-per-call", "C08.history.decode-independent-of-history", "C08.encode.identical-bytes-for-identical-files", "C08.encode.output-decodes", "C08.sequence.decode-independent-of-history", "C08.sequence.encode-independent-of-history"},
-		NoNativeReplay: map[string]bool{"C08.frame.accumulators-are-per-call": true, "C08.frame.no-state-survives-a-call": true},
+		MustReach:      []string{"C08.frame.no-state-survives-a-call", "C08.frame.accumulators-are-per-call", "C08.history.decode-independent-of-history", "C08.encode.identical-bytes-for-identical-files", "C08.encode.output-decodes", "C08.sequence.decode-independent-of-history", "C08.sequence.encode-independent-of-history", "C08.frame.encode-writes-no-shared-object", "C08.sequence.encode-independent-of-earlier-encodes"},
+		NoNativeReplay: map[string]bool{"C08.frame.accumulators-are-per-call": true, "C08.frame.no-state-survives-a-call": true, "C08.frame.encode-writes-no-shared-object": true},
 		Bounds: map[string]interface{}{
-			"quick":    "shared-write frame: Decode (with both counting options), DecodeChained, CheckIntegrity, DecodeHeader, DecodeHeaderAndFileID and Encode on every model stream with n = 2 records plus a stream with the accumulated record sources; call sequences: Decode(B), then Decode/Encode/CheckIntegrity/DecodeChained on a stream A with two activity messages (arbitrary timestamps and local timestamps), then Decode(B) again, for every model stream B with n = 2, results and re-encoded bytes compared; history independence: one record with arbitrary valid accumulated sources decoded from an arbitrary state of the three package-level accumulators (any history's effect is some value of them) versus the fresh state; Encode determinism: two records with different fields under every map iteration order",
-			"thorough": "as quick with n = 3",
+			"quick":    "shared-write frame: Decode (with both counting options), DecodeChained, CheckIntegrity, DecodeHeader, DecodeHeaderAndFileID and Encode on every model stream with n = 2 records plus a stream with the accumulated record sources; call sequences: Decode(B), then Decode/Encode/CheckIntegrity/DecodeChained on a stream A with two activity messages (arbitrary timestamps and local timestamps), then Decode(B) again, for every model stream B with n = 2, results and re-encoded bytes compared; history independence: one record with arbitrary valid accumulated sources decoded from an arbitrary state of the three package-level accumulators (any history's effect is some value of them) versus the fresh state; Encode determinism: two records with different fields under every map iteration order; Encode on hand-built Files: per profile message (first hosting file type) a File with every field set and strings of 2 arbitrary ASCII characters is encoded, then the same File with strings of 0..3 and of 0..5 characters, then the first again: no pre-existing object written, identical bytes",
+			"thorough": "as quick with n = 3 and every hosting file type",
 		},
 		Outside: []string{"'equal to what a fresh process returns' is taken as 'equal to the run from the interpreted initial state of the package'", "json.go's buffer pool is not on any decode/encode path (no write to it is recorded) and is not claimed",
 			"the two frame assertions are facts about the engine's heap (writes to objects that pre-exist the call) and have no native counterpart; their observable consequence is replayed natively through H08b"},
@@ -732,6 +760,7 @@ func init() {
 	})
 	reg(&CheckDef{
 		ID:    "C09",
+		Meta:  "fit.Hmeta",
 		Level: "other",
 		Jobs: func(tier string, meta map[string]int) []Job {
 			var js []Job
@@ -743,6 +772,7 @@ func init() {
 				js = append(js, job("fit", "H09", "n", n, "kinds", k))
 			}
 			js = append(js, job("fit", "H09acc"))
+			js = append(js, hostJobs(meta, "H09e", tier == "thorough")...)
 			return js
 		},
 		MustReach:      []string{"C09.no-shared-object-is-written", "C09.same-result-as-alone", "C09.race-free"},
@@ -750,8 +780,8 @@ func init() {
 		RaceID:         "C09.race-free",
 		Explanation:    "The engine has no thread interleavings. The claim is reduced to a non-interference premise that is decidable here: (P) within the stated bounds no decoding/encoding entry point writes an object that exists before the call (package-level variables and everything package initialisation allocated), decided by symbolic execution with write provenance over all stream contents of the model. (P) implies that any interleaving of calls on independent readers, writers and Files is race-free and returns what each call returns alone (disjoint-state argument, stated not machine-checked; standard-library internals are assumed goroutine-safe as documented). Every path's model is additionally replayed natively with the two calls in separate goroutines under the Go race detector; where (P) fails (the package-level accumulators) the native replay must show a detector report before the finding is printed.",
 		Bounds: map[string]interface{}{
-			"quick":    "pairs of calls: Decode+Encode+CheckIntegrity on one model stream (n = 2 records, every kind order, arbitrary bytes) against Decode+DecodeChained on another; plus the accumulator exception on two concrete streams",
-			"thorough": "as quick with n = 3",
+			"quick":    "pairs of calls: Decode+Encode+CheckIntegrity on one model stream (n = 2 records, every kind order, arbitrary bytes) against Decode+DecodeChained on another; plus the accumulator exception on two concrete streams; plus two concurrent Encodes of hand-built Files hosting the same message with every field set (per profile message, first hosting file type)",
+			"thorough": "as quick with n = 3 and every hosting file type",
 		},
 		Outside:     []string{"interleavings themselves (no schedule is explored symbolically); more than two concurrent calls; streams outside the model"},
 		Assumptions: append([]string{"disjoint-state argument from (P) to race freedom is a paper argument"}, commonAssumptions...),
